@@ -157,7 +157,7 @@ def run(ctx):
     h = vlib.build_harness("c11")
     corpus = [os.path.join(vlib.ROOT, l.strip()) for l in open(os.path.join(vlib.ROOT, "corpus", "C11.sched.txt")) if l.strip() and not l.startswith("#")]
     n, reps = ctx.n(40, 500), ctx.n(1, 2)
-    fam, freps = ctx.n(4, 20), ctx.n(1, 2)
+    fam, freps = ctx.n(4, 12), ctx.n(1, 2)
     lines, crashes, err, dump = run_harness(ctx, h, n, reps, ctx.sseed(SCHED), "sched", corpus, extra=",fam=%d,freps=%d" % (fam, freps), fam=fam)
     evaluations, dist = report(ctx, SCHED, lines, crashes, dump)
     if len(lines) + len(crashes) < n + len(corpus) + fam:
